@@ -127,11 +127,25 @@ impl ErrSpec {
         if self.extended {
             // the device-dependent text varies with the code: ordinary, empty, and long texts (with quotes
             // and semicolons) around and beyond the 255 characters SCPI-99 21.8 mentions for an item
-            static LONG: std::sync::OnceLock<[&'static [u8]; 3]> = std::sync::OnceLock::new();
-            let long = LONG.get_or_init(|| {
-                let mk = |n: usize| -> &'static [u8] { Box::leak((0..n).map(|i| match i % 29 { 7 => b'"', 13 => b';', 21 => b',', k => b'a' + (k % 26) as u8 }).collect::<Vec<u8>>().into_boxed_slice()) };
-                [mk(230), mk(300), mk(1000)]
-            });
+            // (compile-time tables: building the error must not allocate, C11 counts allocations in handlers)
+            const fn pattern<const N: usize>() -> [u8; N] {
+                let mut a = [0u8; N];
+                let mut i = 0;
+                while i < N {
+                    a[i] = match i % 29 {
+                        7 => b'"',
+                        13 => b';',
+                        21 => b',',
+                        k => b'a' + (k % 26) as u8,
+                    };
+                    i += 1;
+                }
+                a
+            }
+            static L230: [u8; 230] = pattern::<230>();
+            static L300: [u8; 300] = pattern::<300>();
+            static L1000: [u8; 1000] = pattern::<1000>();
+            let long: [&'static [u8]; 3] = [&L230, &L300, &L1000];
             match self.code.rem_euclid(8) {
                 1 => base.extended(b""),
                 3 => base.extended(long[0]),
